@@ -1118,3 +1118,27 @@ func (e *Engine) progression(col []value, idx sv, k types.BasicKind) *Term {
 	}
 	return tt.BVBin("bvadd", tt.BVConst(w, a0), scaled)
 }
+
+// concreteSize turns a size operand (make length / capacity) into a concrete
+// value without enumerating the solver's models: negative, beyond the
+// allocation bound, a few small sizes, and one cut for "any other size".
+func (e *Engine) concreteSize(v value) int64 {
+	s, ok := v.(sv)
+	if !ok {
+		return asInt64(v)
+	}
+	w := s.t.S.Width()
+	tt := e.tt
+	if isSigned(s.k) && e.fork(tt.BVCmp("bvslt", s.t, tt.BVConst(w, 0))) {
+		return -1
+	}
+	if e.fork(tt.BVCmp("bvult", tt.BVConst(w, uint64(e.MaxAlloc)), s.t)) {
+		return e.MaxAlloc + 1
+	}
+	for i := uint64(0); i <= 3; i++ {
+		if e.fork(tt.Eq(s.t, tt.BVConst(w, i))) {
+			return int64(i)
+		}
+	}
+	panic(pathAbort{"resource", "symbolic allocation size between 4 and the allocation bound (not enumerated)"})
+}
